@@ -756,3 +756,11 @@ Theorem C17_example_restriction_same_outcome :
     V.Proofs.ExampleRestrictValue.xmap pi (V.Model.ExampleValue.example_value r id ws).
 Proof. exact V.Proofs.ExampleRestrictValue.example_restriction_same_outcome. Qed.
 Print Assumptions C17_example_restriction_same_outcome.
+
+Theorem C17_restriction_closed_satisfiable :
+  exists pi k r id,
+    renumbering (N.of_nat (List.length r)) pi /\ closed (restrict pi k r) /\
+    in_reg (restrict pi k r) (pi id) /\ (List.length (restrict pi k r) < List.length r)%nat /\
+    pi id <> id.
+Proof. exact V.Proofs.HasTypeFuel.restriction_closed_satisfiable. Qed.
+Print Assumptions C17_restriction_closed_satisfiable.
